@@ -107,6 +107,41 @@ def gen_long_chain_case(rnd):
     return f, dict(dims=[(dm, jg.jcol("s0"))], mets=mets, filters=[])
 
 
+def default_time_family(c):
+    """two related metric models that EACH declare a default time dimension, asked without naming any time dimension: the answer is the answer of the same query with the
+    two default time dimensions written out at their default grains (C07's rule, applied once per metric model) -- one row per group, each metric with its own value"""
+    import random
+    from harness import dbutil
+    rng = random.Random(c.seed * 47 + 14)          # a stream of its own
+    n = 0
+    for _ in range(6 if c.tier == "quick" else 60):
+        f, q = gen_extension_case(rng)
+        q = dict(q, dims=[d for d in q["dims"]][:1])
+        dbm, mbm, drefs, mrefs = c02.field_names(q)
+        names = [m["name"] for m in f["models"]]
+        grains = {m: rng.choice(["month", "day", "year"]) for m in names}
+        for m in names:
+            dbm.setdefault(m, []).append(("dt_" + m, ("tdim", "day", 3)))          # a name of its own per model (like-named dimensions of two models are another subject)
+        kw = {m: {"default_time_dimension": "dt_" + m, "default_grain": grains[m]} for m in names}
+        try:
+            L = jg.real_layer(f, mbm, dbm, extra_model_kw=kw)
+            implicit = L.conn.execute(L.compile(metrics=mrefs, dimensions=drefs)).fetchall()
+            explicit = L.conn.execute(L.compile(metrics=mrefs, dimensions=drefs + ["%s.dt_%s__%s" % (m, m, grains[m]) for m in sorted({r.split(".")[0] for r in mrefs}, key=[r.split(".")[0] for r in mrefs].index)])).fetchall()
+        except Exception as e:
+            c.violation("a query over two models with default time dimensions fails: %s" % str(e)[:160], {"kind": "default_time", "forest": f, "query": q, "grains": grains})
+            continue
+        n += 1
+        a, b = dbutil.canon_rows(jg.canon_times(implicit)), dbutil.canon_rows(jg.canon_times(explicit))
+        if sorted(map(sorted_key, a)) != sorted(map(sorted_key, b)):
+            c.violation("metrics of two models that each declare a default time dimension: the query without a time dimension is not the query with both defaults written out",
+                        {"kind": "default_time", "forest": f, "query": q, "grains": grains, "implicit_rows": [list(map(str, r)) for r in a[:10]], "explicit_rows": [list(map(str, r)) for r in b[:10]]})
+    return n
+
+
+def sorted_key(row):
+    return tuple(sorted(str(x) for x in row))
+
+
 def fill_family(c):
     """simple measures that declare fill_nulls_with, of two models, over groups in which one of them has no rows (an extension table with unmatched rows on both
     sides): whatever a measure shows for such a group next to its companion is what it shows for it alone"""
@@ -375,6 +410,7 @@ def run(c):
     c.obligation("oracle: joint result == full outer join of the implementation's single-metric results (%d cases); ORDER BY/LIMIT/OFFSET and metric-value filters on a joint query "
                  "return the corresponding part of it (%d sliced / filtered queries)" % (stats["compared"], stats["slices"]), not c.violations, "correspondence")
     stats["fill_cases"] = fill_family(c)
+    stats["default_time_cases"] = default_time_family(c)
     c.coverage.update({"evaluations": len(cases) + stats["fill_cases"], "distinct_nontrivial": nontrivial,
                        "rule": "forests of 2-4 models x queries with metrics of >= 2 models, 0-2 dimensions on any model, filters on metric and non-metric models in 40% of the cases; "
                                "non-trivial = joint result agrees with the single-metric results on more than one group", "traces_validated_against_impl": stats["compared"], "distribution": stats, "exhaustive": False})
